@@ -19,7 +19,7 @@ PROPERTY = 'C05'
 RULE = ('Dense-time past fragment (once/historically/since bounded and unbounded, Boolean, arithmetic, predicates) and a pastified lane '
         '(bounded eventually/always, pastify() first) on grid signals of up to 6 samples per variable; a schedule cuts the input into '
         'successive update() calls: all at once, one sample per update, random common cut instants, and per-variable independent cuts '
-        '(one operand runs ahead); lanes for unbounded operators under arbitrary schedules, bounded / pastified operators in one update and in several updates; for one-variable cases with <= 5 samples ALL 2^(n-1) schedules are enumerated for a fixed family of 12 formulas; lane skewed: 34-70 samples per variable, one variable delivered completely (or in one update) before the others, so that two-operand nodes keep a long backlog; in the per-variable schedules a variable without new samples is either listed with an empty list or (after its first mention) left out of the call. lane far_twins: two bounded past operators over one operand with bounds of 10^6..10^8 time units that differ in the seventh or a later digit, compared with the dense-time offline monitor of rtamt itself (the grid reference would need 10^7 cells). in one case in four the caller passes the same list object per variable in every call and refills it in place. Oracle: (i) every '
+        '(one operand runs ahead); lanes for unbounded operators under arbitrary schedules, bounded / pastified operators in one update and in several updates; for one-variable cases with <= 5 samples ALL 2^(n-1) schedules are enumerated for a fixed family of 12 formulas; lane skewed: 34-70 samples per variable, one variable delivered completely (or in one update) before the others, so that two-operand nodes keep a long backlog; in the per-variable schedules a variable without new samples is either listed with an empty list or (after its first mention) left out of the call. lane staggered: formulas without temporal operators over variables whose signals start at different instants (compared from the latest start on). lane far_twins: two bounded past operators over one operand with bounds of 10^6..10^8 time units that differ in the seventh or a later digit, compared with the dense-time offline monitor of rtamt itself (the grid reference would need 10^7 cells). in one case in four the caller passes the same list object per variable in every call and refills it in place. Oracle: (i) every '
         'returned element is a [time, value] pair with finite time and the concatenation has non-decreasing time stamps; (ii) read as a '
         'step function it equals the grid reference R-ct (shifted by the horizon after pastify) at every cell start / midpoint it '
         'covers; (iii) two schedules of the same case agree wherever both cover. Non-trivial = >= 2 update calls, non-empty output and '
@@ -161,6 +161,42 @@ def cases(draw, tier, pastified=False, bounded=True, chunked=True):
     return c
 
 
+@st.composite
+def staggered_cases(draw, tier):
+    """Formulas without temporal operators over two or three variables whose signals start at different instants."""
+    from ..dense import grid_signal
+    prof = DENSE_PAST.copy(un_temp=(), bin_temp=(), tun=(), tbin=(), max_depth=3, nvars=draw(st.sampled_from([2, 2, 3])))
+    c = draw(cases(tier, False, bounded=False))
+    f, vs = draw(F.formulas(prof))
+    if len(F.fvars(f)) < 2:
+        # two operands over different variables
+        vs = list(F.VAR_POOL[:2])
+        if draw(st.booleans()):
+            fa, _ = draw(F.formulas(prof.copy(max_depth=2), variables=vs[:1]))
+            fb, _ = draw(F.formulas(prof.copy(max_depth=2), variables=vs[1:]))
+            if not F.fvars(fa):
+                fa = ('var', vs[0])
+            if not F.fvars(fb):
+                fb = ('var', vs[1])
+            f = ('bin', draw(st.sampled_from(['and', 'or', 'implies'])), fa, fb)
+        else:
+            f = ('pred', draw(st.sampled_from(['<=', '>=', '<', '>'])), ('var', vs[0]),
+                 ('bin', draw(st.sampled_from(['+', '-'])), ('var', vs[1]), ('const', draw(st.sampled_from([0.0, 1.0, 2.5])))))
+    c['formula'], c['vars'] = f, vs
+    k0s = draw(st.lists(st.sampled_from([0, 1, 2, 3, 5, 8]), min_size=len(vs), max_size=len(vs), unique=True))
+    c['signals'] = {v: draw(grid_signal(k0, max_samples=6, min_samples=2)) for v, k0 in zip(vs, k0s)}
+    nmax = max(len(x) for x in c['signals'].values())
+    ts = sorted(set(k for x in c['signals'].values() for k, _ in x))
+    if c['schedule'] == 'common':
+        c['cuts'] = sorted(set(draw(st.lists(st.sampled_from(ts), min_size=1, max_size=4))))
+    elif c['schedule'] == 'single':
+        c['cuts'] = ts
+    else:
+        c['masks'] = {v: draw(st.lists(st.integers(0, 1), min_size=nmax, max_size=nmax)) for v in vs}
+    c['staggered'] = True
+    return c
+
+
 def batches_of(case, sig_t, q):
     kind = case.get('schedule', 'common')
     if kind == 'whole':
@@ -195,8 +231,19 @@ def check(case):
     h = F.horizon(f)
     if h is None:
         return DISCARD('unbounded', labels)
+    ref_sig = sig
+    if case.get('staggered'):
+        # the variables start at different instants and the formula has no temporal operator: its value at t is a function
+        # of the values at t, defined from the latest start on; the reference sees the signals from there
+        if len(sig) < 2 or len(set(s[0][0] for s in sig.values())) < 2:
+            return DISCARD('starts-together', labels)
+        labels.append('signals-start-at-different-instants')
+        kc = max(s[0][0] for s in sig.values())
+        if any(s[-1][0] < kc for s in sig.values()):
+            return DISCARD('no-common-domain', labels)
+        ref_sig = {v: [(kc, [x for k, x in s if k <= kc][-1])] + [(k, x) for k, x in s if k > kc] for v, s in sig.items()}
     try:
-        K0, Kend, ref = ct_cells(f, sig)
+        K0, Kend, ref = ct_cells(f, ref_sig)
     except Undefined:
         return DISCARD('undefined', labels)
     text = dense_text(f, q)
@@ -504,6 +551,7 @@ LANES = [
     Lane('near_twins', near_twin_cases, check, 1200, 15000, candidates),
     Lane('long_chunked', long_cases, check, 600, 8000, candidates),
     Lane('skewed', skewed_cases, check, 800, 10000, candidates),
+    Lane('staggered', staggered_cases, check, 1000, 10000, candidates),
     Lane('unbounded_chunked', lambda tier: cases(tier, False, bounded=False), check, 3000, 40000, candidates),
     Lane('bounded_whole', lambda tier: cases(tier, False, chunked=False), check, 1500, 20000, candidates),
     Lane('pastified_whole', lambda tier: cases(tier, True, chunked=False), check, 1000, 15000, candidates),
